@@ -22,6 +22,7 @@ type Env struct {
 	old    *Snapshot
 	alloc  *Term
 	idx    func() *Term
+	rlen   func() *Term
 	visited func() *Term
 	inOld  bool
 	clause *Clause
@@ -151,6 +152,19 @@ func (e *Env) resolveType(name string) types.Type {
 	}
 	if strings.HasPrefix(name, "*") {
 		return types.NewPointer(e.resolveType(name[1:]))
+	}
+	if strings.HasPrefix(name, "map[") {
+		depth := 0
+		for i := 3; i < len(name); i++ {
+			if name[i] == '[' {
+				depth++
+			} else if name[i] == ']' {
+				depth--
+				if depth == 0 {
+					return types.NewMap(e.resolveType(name[4:i]), e.resolveType(name[i+1:]))
+				}
+			}
+		}
 	}
 	pkg := e.pkg
 	if pkg == nil && e.x.fn != nil && e.x.fn.Pkg != nil {
@@ -981,6 +995,11 @@ func (x *Exec) compileCall(env *Env, e *SCall) Value {
 			env.fail("idx() outside a range loop")
 		}
 		return TV{env.idx(), tInt}
+	case "rlen":
+		if env.rlen == nil {
+			env.fail("rlen() outside a range loop")
+		}
+		return TV{env.rlen(), tInt}
 	case "deref":
 		a := argTV(0)
 		pt, ok := a.Ty.Underlying().(*types.Pointer)
@@ -1082,6 +1101,7 @@ func (x *Exec) callSpecFunc(env *Env, sf *SpecFunc, e *SCall) Value {
 	ch.vars = nil
 	ch.lookup = nil
 	ch.idx = nil
+	ch.rlen = nil
 	if p := x.v.typesPkg(sf.PkgPath); p != nil {
 		ch.pkg = p
 	}
